@@ -495,6 +495,7 @@ CLASSES = {
     'N7awkward14IndexedArrayOfIlLb0EEE': ('IA', '_ZNK7awkward14IndexedArrayOfIlLb0EE6lengthEv', 'indexed'),
     'N7awkward13UnmaskedArrayE': ('UMA', '_ZNK7awkward13UnmaskedArray6lengthEv', 'unmasked'),
     'N7awkward15ByteMaskedArrayE': ('BMA', '_ZNK7awkward15ByteMaskedArray6lengthEv', 'bytemasked'),
+    'N7awkward14BitMaskedArrayE': ('BIT', '_ZNK7awkward14BitMaskedArray6lengthEv', 'bitmasked'),
     'N7awkward11RecordArrayE': ('REC', '_ZNK7awkward11RecordArray6lengthEv', 'record'),
     'N7awkward12UnionArrayOfIalEE': ('UNI', '_ZNK7awkward12UnionArrayOfIalE6lengthEv', 'union'),
 }
@@ -576,6 +577,9 @@ def decode(nc, mem, p):
         return dict(cls=kind, contents=conts, length=cell(fo[4]), recordlookup=cell(fo[3]))
     if kind == 'bytemasked':
         return dict(cls=kind, mask=nc.index_terms(mem, Ptr(q.obj, q.off + fo[1]), 'mask')[0], content=decode(nc, mem, cell(fo[2])), valid_when=cell(fo[3]))
+    if kind == 'bitmasked':
+        return dict(cls=kind, mask=nc.index_terms(mem, Ptr(q.obj, q.off + fo[1]), 'bit mask')[0], content=decode(nc, mem, cell(fo[2])), valid_when=cell(fo[3]),
+                    length=cell(fo[5]), lsb_order=cell(fo[6]))
     if kind in ('option', 'indexed'):
         return dict(cls=kind, index=nc.index_terms(mem, Ptr(q.obj, q.off + fo[1]), 'index')[0], content=decode(nc, mem, cell(fo[2])))
     raise Unsupported(kind)
@@ -667,6 +671,8 @@ def length_of(d):
         return length_of(d['content'])
     if d['cls'] == 'bytemasked':
         return len(d['mask'])
+    if d['cls'] == 'bitmasked':
+        return concrete(d['length'], 'BitMaskedArray length')
     if d['cls'] == 'record':
         return concrete(d['length'], 'RecordArray length')
     if d['cls'] == 'union':
@@ -712,6 +718,13 @@ def at(d, k):
         vw = d['valid_when']
         vw = vw if vw.size() == 8 else z3.ZeroExt(8 - vw.size(), vw)
         return _mask(at(d['content'], BV(kk)), (z3.Extract(7, 0, d['mask'][kk]) != 0) != (vw != 0))
+    if c == 'bitmasked':
+        vw, lsb = d['valid_when'], d['lsb_order']
+        byte = z3.Extract(7, 0, d['mask'][kk // 8])
+        bit_l = z3.Extract(kk % 8, kk % 8, byte)
+        bit_m = z3.Extract(7 - kk % 8, 7 - kk % 8, byte)
+        bit = z3.If(z3.Extract(0, 0, lsb) == 1, bit_l, bit_m) if lsb.size() >= 1 else bit_l
+        return _mask(at(d['content'], BV(kk)), (bit == 1) != (z3.Extract(0, 0, vw) == 1))
     if c == 'listoffset':
         a, b = d['offsets'][kk], d['offsets'][kk + 1]
         return [at(d['content'], z3.simplify(a + j)) for j in range(concrete(b - a, 'list length'))]
